@@ -1448,13 +1448,13 @@ func corpus(o *hxlib.Out) {
 	alt := intM(true, 8, -1, int8(-1))
 	encCheck(o, nil, -3, []member{intM(true, 8, 1, int8(1)), arr, intM(false, 32, 7, uint32(7))}, 0, &alt)
 	encCheck(o, nil, -4, []member{intM(true, 8, -1, int8(-1)), arr, intM(false, 32, 7, uint32(7))}, -1, nil)
-	// (a) Result mutates its argument; int5: second call differs
+	// formerly (a) Result mutated its argument (fixed by 66e4e03): ordinary passing cases now
 	resultCheck(o, -5, intInfo(true, 8), i64(0xF0), "i8:-16", false, false)
 	resultCheck(o, -6, intInfo(true, 5), i64(16), "i8:-16", true, false)
 	resultCheck(o, -7, intInfo(true, 100), pow2(99), "big:-"+pow2(99).String(), false, false)
 	// (d) nested array result (the [2][2]uint8 output of a compiled program)
 	resultCheck(o, -8, arrInfo(false, 2, arrInfo(false, 2, intInfo(false, 8))), i64(0x02000001), "", true, false)
-	// (b) bitLen at 2 and 3; negative values
+	// formerly (b) bitLen at 2 and 3 (fixed by 485d3fb): ordinary passing cases; negative values still differ
 	sizesPair(o, nil, -9, i64(2), false, 8)
 	sizesPair(o, nil, -10, i64(3), true, 8)
 	sizesPair(o, nil, -11, i64(-3), true, 8)
